@@ -27,6 +27,9 @@ structure DState where
   /-- the registers of the model P of the primitives, and of the mathematical model S -/
   pst : St := {}
   sst : St := {}
+  /-- a hash map / hash set keyed by nodes of the current graph (`gm` / `gs` commands) -/
+  gm : List (Nat × Int) := []
+  gs : List Nat := []
 
 def lookupName (s : DState) (n : String) : Option Nat := (s.names.find? (·.1 == n)).map (·.2)
 
@@ -178,6 +181,15 @@ def collOps (reg op own : String) (a : List Int) : Option (List Op) :=
   | "cv", "push", [x] => some [.vPush x]
   | "cv", "append", xs => some [.vAppend [] [xs]]
   | "cv", "append3", n :: xs => some [.vAppend [xs.take n.toNat] [xs.drop n.toNat, []]]
+  | "ci", "new", xs => some [.iNew xs]
+  | "ci", "len", [] => some [.iLen]
+  | "ci", "ref", [i] => some [.iRef i]
+  | "ci", "push", [x] => some [.iPush x]
+  | "ci", "set", [i, x] => some [.iSet (own == "u") i x]
+  | "ci", "take", [n] => some [.iTake (own == "u") n]
+  | "ci", "drop", [n] => some [.iDrop (own == "u") n]
+  | "ci", "rest", [] => some [.iRest]
+  | "ci", "append3", n :: xs => some [.iAppend [xs.take n.toNat] [xs.drop n.toNat, []]]
   | "cb", "new", xs => some [.bNew xs]
   | "cb", "len", [] => some [.bLen]
   | "cb", "ref", [i] => some [.bRef i]
@@ -203,7 +215,7 @@ def showAns (op : Op) (a : Ans) : String :=
   | .err => "err"
   | .int i =>
       (match op with
-       | .mRef _ | .lRef _ | .lFirst | .lLast | .vRef _ | .bRef _ => s!"ok {i}"
+       | .mRef _ | .lRef _ | .lFirst | .lLast | .vRef _ | .bRef _ | .iRef _ => s!"ok {i}"
        | .mTryGet _ => s!"some {i}"
        | _ => toString i)
   | .bool b => showB b
@@ -295,6 +307,76 @@ def line (s : DState) (l : String) : DState × String :=
       | some a, some b =>
           (s, s!"key impl={showB (keyEqImpl s.cfg s.graph a b)} spec={showB (eqSpec s.graph a b)}")
       | _, _ => (s, "bad name")
+  | "gm" :: op :: args =>
+      -- a hash map keyed by values of the graph: `HashMap::insert/get/remove` with the key equality of the code
+      let keq := keyEqImpl s.cfg s.graph
+      match op, args with
+      | "new", [] => ({ s with gm := [] }, "gm 0")
+      | "insert", [k, v] =>
+          match lookupName s k, v.toInt? with
+          | some k, some v => let m := gmInsert keq s.gm k v; ({ s with gm := m }, s!"gm {m.length}")
+          | _, _ => (s, "bad name")
+      | "remove", [k] =>
+          match lookupName s k with
+          | some k => let m := gmRemove keq s.gm k; ({ s with gm := m }, s!"gm {m.length}")
+          | none => (s, "bad name")
+      | "ref", [k] =>
+          match lookupName s k with
+          | some k => (s, match gmGet keq s.gm k with | some v => s!"gm ok {v}" | none => "gm err")
+          | none => (s, "bad name")
+      | "contains", [k] =>
+          match lookupName s k with
+          | some k => (s, s!"gm {showB (gmContains keq s.gm k)}")
+          | none => (s, "bad name")
+      | "len", [] => (s, s!"gm {s.gm.length}")
+      | o, kvs =>
+          -- `(hash-union gm (hash K V ..))` / `unionr`: the literal on the left
+          let rec pairs : List String → Option (List (Nat × Int))
+            | [] => some []
+            | k :: v :: rest => do
+                let k ← lookupName s k
+                let v ← v.toInt?
+                let t ← pairs rest
+                pure ((k, v) :: t)
+            | _ => none
+          match pairs kvs with
+          | some es =>
+              let lit := es.foldl (fun m e => gmInsert keq m e.1 e.2) []
+              match o with
+              | "union" => let m := gmUnion keq s.gm lit; ({ s with gm := m }, s!"gm {m.length}")
+              | "unionr" => let m := gmUnion keq lit s.gm; ({ s with gm := m }, s!"gm {m.length}")
+              | _ => (s, "bad command")
+          | none => (s, "bad name")
+  | "gs" :: op :: args =>
+      let keq := keyEqImpl s.cfg s.graph
+      match op, args with
+      | "new", [] => ({ s with gs := [] }, "gs 0")
+      | "insert", [k] =>
+          match lookupName s k with
+          | some k => let t := setInsertIds keq s.gs k; ({ s with gs := t }, s!"gs {t.length}")
+          | none => (s, "bad name")
+      | "contains", [k] =>
+          match lookupName s k with
+          | some k => (s, s!"gs {showB (s.gs.any (keq k))}")
+          | none => (s, "bad name")
+      | "len", [] => (s, s!"gs {s.gs.length}")
+      | o, names =>
+          -- the set algebra against a literal `(hashset K..)` built by the constructor; `..r`: the literal on the left
+          match lookupAllNames s names with
+          | some ids =>
+              let lit := ids.foldl (setInsertIds keq) []
+              let upd := fun (t : List Nat) => ({ s with gs := t }, s!"gs {t.length}")
+              match o with
+              | "union" => upd (gsUnion keq s.gs lit)
+              | "unionr" => upd (gsUnion keq lit s.gs)
+              | "inter" => upd (gsInter keq s.gs lit)
+              | "interr" => upd (gsInter keq lit s.gs)
+              | "diff" => upd (gsSymDiff keq s.gs lit)
+              | "diffr" => upd (gsSymDiff keq lit s.gs)
+              | "subset" => (s, s!"gs {showB (gsSubset keq s.gs lit)}")
+              | "subsetr" => (s, s!"gs {showB (gsSubset keq lit s.gs)}")
+              | _ => (s, "bad command")
+          | none => (s, "bad name")
   | reg :: op :: args =>
       match collLine s reg op args with
       | some (s', out) => (s', out)
